@@ -12,6 +12,7 @@ def gen_cases(rng, tier):
         nref = rng.choice([0, 1, 2, 5, 50, 400, 3000])
         cases.append(dict(mode='bam', refs=[rng.randrange(1, 1 << 28) for _ in range(nref)], rname=rng.choice([4, 8, 30, 60]),
                           wc=rng.randrange(0, 5), level=rng.choice([-1, 0, 1, 9]), delay=rng.randrange(1, 1000)))
+    cases += fault_family(rng, tier)
     for i in range(nbig + nsmall):
         big = i < nbig
         close = rng.random() < 0.7
@@ -24,15 +25,46 @@ def gen_cases(rng, tier):
     return cases
 
 
+def fault_family(rng, tier):
+    """Transient faults of the underlying writer: the k-th Write call is refused, later ones would succeed; several
+    flushed blocks in flight, wc >= 2 (and some wc < 2), one Write spanning blocks is left to the thorough tier."""
+    n = 30 if tier == 'quick' else 400
+    cases = []
+    for i in range(n):
+        nblocks = rng.randrange(2, 9)
+        ops = []
+        for b in range(nblocks):
+            ops.append(dict(op='w', kind=rng.choice([0, 1, 2]), seed=rng.randrange(1, 1 << 16), len=rng.choice([1, 20, 300, 3000])))
+            if rng.random() < 0.85:
+                ops.append(dict(op='f'))
+            if rng.random() < 0.15:
+                ops.append(dict(op='wait'))
+        if tier != 'quick' and rng.random() < 0.2:
+            ops.insert(0, dict(op='w', kind=2, seed=3, len=2 * wrlib.BS + 5))
+        if rng.random() < 0.5:
+            ops.append(dict(op='wait'))
+        if rng.random() < 0.85:
+            ops.append(dict(op='close'))
+        k = rng.randrange(0, nblocks + 2)        # also the final empty block / the marker / no fault at all
+        failw = [k] if rng.random() < 0.75 else sorted({k, k + rng.randrange(1, 4)})
+        cases.append(dict(mode='rt', ops=ops, level=rng.choice([-1, 0, 1, 9]), wc=rng.choice([2, 2, 3, 4, 4, 8, 0, 1]), rd=1,
+                          reads=[8192], delay=rng.choice([0, rng.randrange(1, 100000)]), hbytes=True, failw=failw))
+    return cases
+
+
 def nontrivial(c, o):
     if c.get('mode') == 'bam':
         return True
+    if c.get('failw'):
+        return (o.get('refused') or 0) >= 1
     return len(o.get('w_k') or []) >= 2
 
 
 def bucket(c, o):
     if c.get('mode') != 'rt':
         return '%s/wc=%s' % (c.get('mode'), c.get('wc'))
+    if c.get('failw'):
+        return 'fault/refused=%s/accepted=%s/wc=%d' % (o.get('refused'), min(len(o.get('w_k') or []), 6), c['wc'])
     fw = sum(1 for a, b in zip(c['ops'], c['ops'][1:]) if a['op'] == 'f' and b['op'] == 'wait')
     return 'writes=%s/flushwait=%s/wc=%d' % (min(len(o.get('w_k') or []), 6), min(fw, 2), c['wc'])
 
@@ -42,8 +74,9 @@ def run(res, rng, tier):
     wrlib.run_property(res, rng, 'C12', cases, nontrivial, bucket, TRUSTED, ASSUME,
                        'scripts of 2-12 Write/Flush/Wait calls (Flush;Wait pairs, Wait without Flush, Close or no Close) at wc 0..4 on an underlying writer that sleeps/yields at seeded random '
                        'points; the stream length is recorded after every underlying Write and after every API call and located among the member boundaries found by the independent parser; '
-                       'bam.NewWriter with 0..3000 references (header of one to several blocks) snapshotted at return; a script case is non-trivial when at least two underlying Writes '
-                       'happened; distinct by (ops, level, wc, delay)')
+                       'bam.NewWriter with 0..3000 references (header of one to several blocks) snapshotted at return; fault family: 2-8 flushed blocks in flight at wc 0..8 with the k-th '
+                       '(and sometimes a later) underlying Write refused, later ones accepted; a script case is non-trivial when at least two underlying Writes '
+                       'happened (fault case: at least one Write was refused); distinct by (ops, level, wc, delay)')
 
 
 def replay(res, rp):
@@ -57,7 +90,8 @@ CLAIM = dict(
     text='Machine-checked proof (Coq 8.16.1) over the concurrent pipeline model, for every writer concurrency and every schedule: in every reachable state the chunks handed to the underlying '
          'writer are exactly the members of the first k submitted blocks, one member per underlying Write, so they decode to a prefix of the data written so far in write order; when a Wait '
          'returns nil after a Flush returned nil everything written before the Flush is in the stream; when Close returns nil everything is, followed by the EOF marker; '
-         'bam.NewWriter (Write header; Flush; Wait) returns only when the whole header is in the stream.',
+         'bam.NewWriter (Write header; Flush; Wait) returns only when the whole header is in the stream. For every fault plan of the underlying writer (k-th Write refused) the accepted chunks are '
+         'still the members of a prefix of the submitted blocks and nothing is delivered after the failure (emitted_is_block_prefix_faulty).',
     note='Scheduler, channels and WaitGroup are modelled (interleaving semantics of the atomic steps listed in WriterConc.v); qwg.Add-after-send and Done-after-Copy orders are taken from the source '
          'skeleton that gen/ regenerates. Fault-free underlying writer. Durability is stated through ghost marks set where Flush / Wait / Close return nil.',
     technique='Coq invariant proof over schedule-driven small-step model + snapshots of a delaying underlying writer judged by an independent parser',
